@@ -756,12 +756,8 @@ def run_plain(sc):
                 elif w == "kick":
                     system.set_kick_vars(np.array(v, dtype=bool))
                 elif w == "constants":
-                    sol_ = system.sol
-                    lg.const_marks.append((len(sol_.y_interpolants) if sol_ is not None else 0, dict(v)))
                     system.constants = dict(v)
-                elif w == "constants-inplace":       # the dictionary the system handed out is edited in place: no setter runs
-                    sol_ = system.sol
-                    lg.const_marks.append((len(sol_.y_interpolants) if sol_ is not None else 0, dict(system.constants, **v)))
+                elif w == "constants-inplace":
                     system.constants.update(v)
         except traced.BudgetExceeded as e:
             err = "BudgetExceeded"
